@@ -149,6 +149,25 @@ CHECKS.update({
         design_ref='DESIGN.md §3.4, §4 C13', note=OAL_NOTE),
 })
 
+
+CHECKS.update({
+    'C04': dict(
+        technique='OalExec.tla: a big-step evaluator of OAL syntax trees over a plain relational model, evaluated by TLC on every '
+                  'generated program and compared (OalExecTrace.tla) with the return value and final population of '
+                  'interpret.run_function on a real domain',
+        text='The specification is an independent definition of the language (it knows nothing of symbol tables, walkers or '
+             'properties); programs are generated type-correct with nested loops, conditionals, where clauses and a population they '
+             'build themselves, and TLC - not the harness - computes what each must return and leave behind. Programs outside the '
+             'domain (error programs, division) are identified by the specification and counted.',
+        design_ref='DESIGN.md §3.4, §4 C04', note=OAL_NOTE + '; the generator vt/oalgen.py only chooses programs'),
+    'C08': dict(
+        technique='the C07 (parse) and C04 (execute) pipelines re-run on renderings with every keyword occurrence in UPPER, Capitalised '
+                  'or random mixed case; the specifications (OalSyntax.tla, OalExec.tla) have no notion of keyword case, so any '
+                  'dependence of the code on it is a mismatch found by TLC',
+        text='Same corpora and oracles as C07 and C04, crossed with per-keyword case choices.',
+        design_ref='DESIGN.md §4 C08', note=OAL_NOTE),
+})
+
 NOT_YET = {}
 
 
